@@ -36,6 +36,9 @@ claim("C07", "M", "SMT bounded model checking of MIR (z3)",
 claim("C11", "M+K", "SMT bounded model checking of MIR (z3); Kani/CBMC harnesses for the BlockLocator ring",
       "Kernel level: anti-reorg confirmation thresholds of both on-chain event queues (no irreversible conclusion before ANTI_REORG_DELAY confirmations nor before a CSV output matures), heights 1..2^31, all CSV delays; BlockLocator ring operations (Kani) where registered. Equivalence of block-delivery styles is history-quantified and outside the claim.",
       "trusted: rustc MIR dump, engine_m, z3, Kani/CBMC")
+claim("C17", "M", "SMT bounded model checking of MIR (z3)",
+      "Kernel level (narrow): the channel_update acceptance closures of NetworkGraph::update_channel_internal - strictly newer timestamp per direction, htlc_maximum <= known capacity - for all timestamps/flags/amounts; counterexamples are replayed through the public NetworkGraph API. Signatures, announcements, pruning and order-independence over message sets are outside the claim.",
+      "trusted: rustc MIR dump, engine_m, z3")
 
 
 def main():
